@@ -10,6 +10,8 @@ package routing
 // recorded with its hash; port pairs whose hash is exactly a bucket bound (and bound+1, 0) are added. Trace_Balance judges all observations with the reference relation at H=31.
 
 import (
+	"log/slog"
+	"io"
 	"encoding/json"
 	"fmt"
 	"net/netip"
@@ -37,8 +39,9 @@ func c40Limbs(u uint64) []int {
 	return out
 }
 
+// (the addresses of a list are distinct but NOT in address order: the order of a gateway list is the configuration's)
 func c40Addr(i int) netip.Addr {
-	return netip.AddrFrom4([4]byte{10, 77, byte(i >> 8), byte(i)})
+	return netip.AddrFrom4([4]byte{10, 77, byte(i >> 8), byte(i) ^ 0x55})
 }
 
 type c40Obs struct {
@@ -87,6 +90,20 @@ func c40Run(res *vResult, k int, src string, weights []int, ports [][2]uint16) (
 		total += uint64(w)
 	}
 	CalculateBucketsForGateways(gws)
+	// the list is looked at the way the node's own log lines look at it ("Adding route ... via <gateways>"): looking must
+	// not change it
+	before := append([]Gateway(nil), gws...)
+	_ = Gateways(gws).String()
+	_ = fmt.Sprintf("%v %s", Gateways(gws), Gateways(gws))
+	slog.New(slog.NewTextHandler(io.Discard, nil)).Info("Adding route", "via", Gateways(gws))
+	for i := range gws {
+		_ = gws[i].String()
+		if gws[i] != before[i] {
+			res.Mismatch("formatting-changes-the-list", fmt.Sprintf("weights %v: formatting the gateway list for a log line changed entry %d from %v to %v", weights, i, before[i].String(), gws[i].String()), nil)
+			return nil, gws
+		}
+	}
+	res.Hit("formatted-like-a-log-line")
 	// class of the list: does total*2^31 + total/2 (the rounding numerator of the last bucket) need more than 64 bits?
 	o := &c40Obs{K: k, H: 31, Weights: weights, Src: src, Class: "total<2^33-1", Samples: []map[string]any{}}
 	if total >= 1<<33-1 {
